@@ -41,6 +41,7 @@ func genSubs(r *rng) string {
 func genRoute(r *rng, n int, tier string, emit func(string)) {
 	for _, c := range []string{
 		"tree S a 0 1 N a 0 0 ; msg a k 01 ; msg b k 02",
+		"tree S a 0 1 N a 0 1 N a 0 0 ; msg a k %1024 ; msg a k %1025 ; msg a k %70000",
 		"tree S - 0 2 N a 1 2 N a 0 0 N b 0 1 N a,b 0 0 N a 0 0 ; msg a k - ; msg b k2 ff ; msg zz k -",
 		"tree S a 0 1 N a 0 0 ; msg a k 01 ; restart ; msg a k 02 ; resub -1 b ; msg b k 03 ; restart ; msg b k 04 ; msg a k 05",
 		"tree S a,b 1 1 N a 1 1 N a 1 1 N a 0 0 ; msg a k 00 ; resub 2 - ; msg a k 00 ; resub -1 b ; msg a k 01 ; resub 0 a,b ; msg b k 03",
@@ -85,7 +86,12 @@ func genRoute(r *rng, n int, tier string, emit func(string)) {
 				if r.chance(8) {
 					t = "unknown"
 				}
-				ops = append(ops, fmt.Sprintf("msg %s k%d %s", t, r.intn(3), hx([]byte{byte(j), byte(i)})))
+				pl := hx([]byte{byte(j), byte(i)})
+				if r.chance(15) {
+					// long payloads around powers of two and beyond (a rate-data document, a large recovery request)
+					pl = fmt.Sprintf("%%%d", r.pick(65, 255, 256, 1023, 1024, 1025, 4095, 4097, 65536, 100000, 1<<20+1))
+				}
+				ops = append(ops, fmt.Sprintf("msg %s k%d %s", t, r.intn(3), pl))
 			}
 		}
 		emit(strings.Join(ops, " ; "))
